@@ -155,7 +155,12 @@ def run(cmd, timeout=None, mem_gb=None, cwd=None, stdout=None):
 
 
 def read_spec(names):
-    return ''.join('#include "%s"\n' % n for n in names)
+    # memory-safety instrumentation is for the engine's code, not for the oracle: checks are switched off inside spec headers
+    if not names:
+        return ''
+    return ('#pragma CPROVER check push\n#pragma CPROVER check disable "pointer"\n#pragma CPROVER check disable "bounds"\n'
+            '#pragma CPROVER check disable "pointer-overflow"\n#pragma CPROVER check disable "signed-overflow"\n#pragma CPROVER check disable "pointer-primitive"\n'
+            + ''.join('#include "%s"\n' % n for n in names) + '#pragma CPROVER check pop\n')
 
 
 def build_c(job, work, canary=False):
@@ -240,7 +245,7 @@ def pipeline(job, work, canary=False):
         if rc != 0:
             return 'ERROR', [], 'goto-instrument failed: ' + (err or out)[-2500:], cmds, 0, info, ''
         target = gb2
-    flags = list(DEFAULT_FLAGS) + job.flags
+    flags = list(DEFAULT_FLAGS) + job.flags + os.environ.get('VERIF_CBMC_EXTRA', '').split()
     if job.unwind is not None:
         flags += ['--unwind', str(job.unwind)]
     if job.unwindset:
